@@ -1,6 +1,6 @@
 #!/usr/bin/env python3
 """Regenerates /verif/MANIFEST.json from tools/manifest_table.json (one entry per claimed property)."""
-import json, os
+import json, os, subprocess
 root = os.path.dirname(os.path.dirname(os.path.abspath(__file__)))
 props = [json.loads(l) for l in open(os.path.join(root, 'properties.jsonl'))]
 table = json.load(open(os.path.join(root, 'tools', 'manifest_table.json')))
@@ -23,12 +23,13 @@ for p in props:
         "technique": c.get('technique', 'contract-based deductive verification: weakest-precondition style VCs generated from go/ssa of the real functions, contracts as structured comments, discharged by z3/cvc5'),
     })
 na = [{"property_id": p['id'], "reason": table['not_applicable'].get(p['id'], "no check registered yet for this property; see DESIGN.md")} for p in props if p['id'] not in claimed]
+hook_commits = [l.split()[0] for l in subprocess.run(['git','-C','/repo','log','--format=%h %s'],capture_output=True,text=True).stdout.splitlines() if l.split(' ',1)[1].startswith('verif:')][::-1]
 m = {
  "version": 1,
  "setup_cmd": "cd /verif/govc && GOFLAGS=-mod=mod GOPROXY=off go build -o /verif/bin/govc ./cmd/govc",
  "hooks": {"guard": "verif", "enable": "go build -tags verif: contract files zz_contracts_verif.go contain a package clause and //@ comments only and are excluded without the tag",
            "baseline_off_cmd": "cd /repo/tooling && GOFLAGS=-mod=mod GOPROXY=off go test -vet=off -count=1 ./...",
-           "source_commits": table.get('hook_commits', []), "add_only": True},
+           "source_commits": hook_commits, "add_only": True},
  "engines": [{"name": "govc", "path": "/verif/govc", "serves_properties": sorted(claimed.keys()),
               "kind_free_text": "self-written VC generator over go/ssa of the real packages (block-encoded weakest preconditions, Burstall-Bornat heap, loops cut at invariants, calls replaced by contracts); contracts are //@ comments in build-tag-guarded files; obligations discharged by z3 5.1.0 / cvc5 1.0.3 / z3 4.8.12; counterexamples replayed with go test -overlay"}],
  "checks": checks,
